@@ -251,9 +251,10 @@ class VhdSuite(Suite):
             sig = f"vhd:{case['kind']}:{kind}"
             if kind == "bytes":
                 full = mat(spec_plan)[skip:skip + want]
-                fs += judge_read(label, r, None, [], want, lambda p, full=full: full, exact_len=True, sig=sig)
+                fs += judge_read(label, r, None, full, want, mat, exact_len=True, sig=sig)
             else:
-                fs += judge_read(label, r, core.res_of(model_v), spec_plan, want, mat, exact_len=False, sig=sig)
+                fs += judge_read(label, r, core.res_of(model_v), mat(spec_plan)[skip:skip + want], want, mat,
+                                 exact_len=False, sig=sig)
         return fs
 
     def nontrivial(self, case, impl_res, coq_val):
